@@ -363,13 +363,31 @@ func fileReadAux(L *LState, file *lFile, idx int) int {
 				switch opt {
 				case 'n':
 					var v LNumber
-					_, err = fmt.Fscanf(file.reader, LNumberScanFormat, &v)
+					// like fscanf("%lf"): skip white space including newlines,
+					// leave a byte that cannot start a numeral unread, and
+					// report a malformed numeral as nil (not as an I/O error)
+					var c byte
+					for {
+						c, err = file.reader.ReadByte()
+						if err != nil || !(c == ' ' || (c >= '\t' && c <= '\r')) {
+							break
+						}
+					}
 					if err == io.EOF {
 						L.Push(LNil)
 						goto normalreturn
 					}
 					if err != nil {
 						goto errreturn
+					}
+					file.reader.UnreadByte()
+					if !(c >= '0' && c <= '9') && c != '+' && c != '-' && c != '.' {
+						L.Push(LNil)
+						goto normalreturn
+					}
+					if _, err = fmt.Fscanf(file.reader, LNumberScanFormat, &v); err != nil {
+						L.Push(LNil)
+						goto normalreturn
 					}
 					L.Push(v)
 				case 'a':
